@@ -18,15 +18,16 @@ def run(ctx):
     import random
     cli = [c for c in cases if c["knownExt"]]
     random.Random(ctx.seed).shuffle(cli)
-    cli = cli[:600 if ctx.quick else 6000]
+    # (the filters with a single name always run)
+    cli = [c for c in cli if len(c["include"]) + len(c["exclude"]) == 1] + [c for c in cli if len(c["include"]) + len(c["exclude"]) != 1][:600 if ctx.quick else 6000]
     buf = ctx.build_buf()
     n2 = ctx.vh("filter-cli", {"buf": buf, "exe": ctx.harness(), "cases": cli[:40], "corrupt": True})
     if not n2["violations"]:
         raise vlib.Infra("negative control of the end-to-end stage failed")
     ctx.add_result(ctx.vh("filter-cli", {"buf": buf, "exe": ctx.harness(), "cases": cli}, timeout=20000), kind="cli")
     ctx.assumptions += [
-        "end to end: 600 (6000) seeded filters with the defaults of the command line (custom options and known extensions retained) through the buf binary: buf build --type -o (includes only) and buf generate with a plugin carrying types / exclude_types next to an unfiltered plugin, in either order, or with the --type / --exclude-type flags; the elements of the written image and of the descriptors each plugin receives are compared with the specification (the unfiltered plugin must receive the whole schema)",
+        "end to end: 600 (6000) seeded filters with the defaults of the command line (custom options and known extensions retained) through the buf binary: buf build --type -o with and without --exclude-imports (includes only) and buf generate with a plugin carrying types / exclude_types next to an unfiltered plugin, in either order, or with the --type / --exclude-type flags; the elements of the written image and of the descriptors each plugin receives are compared with the specification (the unfiltered plugin must receive the whole schema)",
         "one fixed schema (30 named elements in 5 files: nested types, map, oneof, an extension and a chain of extensions of extension types, custom options with a message value, service with two methods, a file without types); the filter space is enumerated, not the schema space",
         "custom-option retention is enumerated on/off; known-extension retention (the default of the CLI) is enumerated on/off for filters that include something, with custom options on; with retention on the same filter is applied seven times and must give the same elements; copying and in-place modes are both run",
     ]
-    return vlib.finish(ctx, rule="every filter with 1..2 (quick) / 1..3 (thorough) names distributed over include and exclude (21 names: elements and packages) x custom options on/off x known-extension retention on/off x in-place/copy; result checked for error class, linking, surviving elements and fields = Keep of the specification, unchanged fields, comment attachment, idempotence; a seeded sample end to end through buf build --type and buf generate (types / exclude_types per plugin or as flags, next to an unfiltered plugin); distinct = filters")
+    return vlib.finish(ctx, rule="every filter with 1..2 (quick) / 1..3 (thorough) names distributed over include and exclude (21 names: elements and packages) x custom options on/off x known-extension retention on/off x in-place/copy; the single-name filters also with c.proto and e.proto as imports of the image (a module that is not targeted); result checked for error class, linking, surviving elements and fields = Keep of the specification, unchanged fields, comment attachment, idempotence; a seeded sample end to end through buf build --type and buf generate (types / exclude_types per plugin or as flags, next to an unfiltered plugin); distinct = filters")
